@@ -1099,12 +1099,26 @@ def join_states(ctx, a, b, tag, widen=False, thresholds=()):
         if ma.get(v) == v and mb.get(v) == v and b.prov.get(v) == p and all(unchanged(x) for x in p[1]):
             out.prov[v] = p
     # known bits survive a join where both sides know the same bit with the same value
+    eager = bool(getattr(ctx, "hooks", {}).get("kbits_eager"))
+    ALL = (1 << 64) - 1
+
+    def kb_side(stt, x):
+        p_ = stt.prov.get(x)
+        if p_ and p_[0] == "kbits":
+            return p_[2]
+        if eager and x in stt.itv:
+            lo_, hi_ = stt.itv[x]
+            if lo_ == hi_:
+                return (ALL, lo_ & ALL)          # a constant: every bit known (two's complement, 64 bits)
+        return None
     for (xa, xb), t in pair.items():
-        pa, pb = a.prov.get(xa), b.prov.get(xb)
-        if pa and pb and pa[0] == "kbits" and pb[0] == "kbits" and t not in out.prov:
-            m = pa[2][0] & pb[2][0] & ~(pa[2][1] ^ pb[2][1])
-            if m:
-                out.prov[t] = ("kbits", (), (m, pa[2][1] & m))
+        if xa == xb or t in out.prov:
+            continue
+        ka_, kb_ = kb_side(a, xa), kb_side(b, xb)
+        if ka_ and kb_:
+            m = ka_[0] & kb_[0] & ~(ka_[1] ^ kb_[1])
+            if m and t in out.itv and out.itv[t][0] != out.itv[t][1]:
+                out.prov[t] = ("kbits", (), (m, ka_[1] & m))
     return out
 
 
